@@ -208,9 +208,16 @@ def cfg_st(draw, flags=("stop", "dry_run"), p_tags=0.6, show_skipped=True):
 
 
 @st.composite
-def program_st(draw, max_features=3, faults=True, cfg=None, peek=True, **kw):
+def program_st(draw, max_features=3, faults=True, cfg=None, peek=True, relog=False, **kw):
     feats = [draw(feature_st(**kw)) for _ in range(draw(st.integers(1, max_features)))]
     prog = {"features": feats, "cfg": draw(cfg if cfg is not None else cfg_st())}
+    if relog and draw(st.integers(0, 4)) == 0:
+        # a passing step whose code reconfigures logging (replaces the root logger's handlers for good)
+        from .harness import _all_step_lists
+        cands = [s for f in feats for lst in _all_step_lists(f) for s in lst if s["o"] == "pass"]
+        if cands:
+            victim = cands[draw(st.integers(0, len(cands) - 1))]
+            victim.setdefault("emit", {})["relog"] = draw(st.sampled_from(["clear", "basicConfig", "dictConfig"]))
     if peek and draw(st.integers(0, 3)) == 0:
         prog["peek"] = True         # hooks read element statuses (harness.Plan.peek)
     if prog["cfg"].get("tagx") and prog["cfg"].get("dialect") == "v2" and draw(st.integers(0, 3)) == 0:
